@@ -13,6 +13,8 @@ pub mod c08retro;
 #[cfg(feature = "search")]
 pub mod c09;
 #[cfg(feature = "search")]
+pub mod c15engine;
+#[cfg(feature = "search")]
 pub mod posprops;
 #[cfg(feature = "c10")]
 pub mod c10;
